@@ -166,7 +166,7 @@ func asUnsigned(x value) (value, bool) {
 		return uint32(x), x >= 0
 	case int64:
 		return uint64(x), x >= 0
-	case uint, uint8, uint32, uint64, uintptr:
+	case uint, uint8, uint16, uint32, uint64, uintptr:
 		return x, true
 	}
 	panic(fmt.Sprintf("cannot convert %T to unsigned", x))
